@@ -1095,12 +1095,14 @@ impl State {
                         "bv" => {
                             let before = live();
                             let b: BitVector = pos.iter().map(|&x| x as usize).collect();
-                            Ok((Box::new(BvObj { b: Bv::I(b) }), live() - before))
+                            let h = live() - before;
+                            Ok((Box::new(BvObj { b: Bv::I(b) }), h))
                         }
                         "bvm" => {
                             let before = live();
                             let b: BitVectorMut = pos.iter().map(|&x| x as usize).collect();
-                            Ok((Box::new(BvObj { b: Bv::M(b) }), live() - before))
+                            let h = live() - before;
+                            Ok((Box::new(BvObj { b: Bv::M(b) }), h))
                         }
                         _ => Err("X".into()),
                     }
@@ -1117,7 +1119,8 @@ impl State {
                                 "default" => BitVector::default(),
                                 _ => bits.iter().copied().collect(),
                             };
-                            Ok((Box::new(BvObj { b: Bv::I(b) }), live() - before))
+                            let h = live() - before;
+                            Ok((Box::new(BvObj { b: Bv::I(b) }), h))
                         }
                         "bvm" => {
                             let before = live();
@@ -1128,7 +1131,8 @@ impl State {
                                 "withzeros" => BitVectorMut::with_zeros(rest[0].parse().unwrap()),
                                 _ => bits.iter().copied().collect(),
                             };
-                            Ok((Box::new(BvObj { b: Bv::M(b) }), live() - before))
+                            let h = live() - before;
+                            Ok((Box::new(BvObj { b: Bv::M(b) }), h))
                         }
                         _ => Err("X".into()),
                     }
